@@ -825,10 +825,15 @@ func ZZ_C27_EndToEnd() {
 	stored, kinds := zzPublish(kv, h, rt.Bound("slotkinds"))
 	for k := 1; k <= 3; k++ {
 		if stored[k] != nil {
-			// the route's node is G ('L') or R ('R'), and its chord address is that node's
+			// the route's node is G ('L'), R ('R'), or a node 'X' that is gone: its chord address is now R's (a stale
+			// route: R must refuse it). The chord address is the node's.
 			ta := stored[k].TunnelDestination.Address
-			rt.Assume(rt.Or(ta == zzLocalAddr, ta == zzRemoteAddr))
-			stored[k].ChordDestination.Address = ta + "c"
+			rt.Assume(rt.Or(ta == zzLocalAddr, ta == zzRemoteAddr, ta == "X"))
+			if ta == zzLocalAddr {
+				stored[k].ChordDestination.Address = zzLocalAddr + "c"
+			} else {
+				stored[k].ChordDestination.Address = zzRemoteAddr + "c"
+			}
 			b, _ := stored[k].MarshalVT()
 			kv.entries[2*(k-1)].val = b
 		}
@@ -836,6 +841,12 @@ func ZZ_C27_EndToEnd() {
 	link := &protocol.Link{Alpn: protocol.Link_HTTP, Hostname: h, Remote: "r"}
 
 	conn, err := g.srv.DialClient(context.Background(), link)
+
+	for k := 1; k <= 3; k++ {
+		if stored[k] != nil && stored[k].TunnelDestination.Address == "X" {
+			rt.Reach("e2e-stale-route-refused") // (refusal itself: no client dial by R for this route, asserted below)
+		}
+	}
 
 	// which client streams exist, and for whom
 	nStored := 0
@@ -846,10 +857,25 @@ func ZZ_C27_EndToEnd() {
 	}
 	sawNoDirect := false
 	chordSeen := false
+	nLocalStored, nRemoteStored, nLocalDials, nNodeDials := 0, 0, 0, 0
+	for k := 1; k <= 3; k++ {
+		if stored[k] != nil {
+			if stored[k].TunnelDestination.Address == zzLocalAddr {
+				nLocalStored++
+			} else {
+				nRemoteStored++
+			}
+		}
+	}
 	for _, d := range w.dials {
 		if d.t.chord {
 			chordSeen = true
+			nNodeDials++
+			rt.Assert(rt.And(d.t == g.chordT, d.kind == protocol.Stream_PROXY), "nodes-are-dialled-by-the-gateway-node-for-proxying")
 			continue
+		}
+		if d.t == g.tunnel {
+			nLocalDials++
 		}
 		// a client dial: by the node the route names, to the client the route names, for a route of h
 		if d.t == g.tunnel {
@@ -887,6 +913,7 @@ func ZZ_C27_EndToEnd() {
 			if client == nil {
 				return
 			}
+			rt.Assert(client.d.t == r.tunnel, "proxied-stream-ends-at-a-client-of-the-remote-node")
 			rt.Reach("e2e-through-remote-node")
 		} else {
 			rt.Reach("e2e-direct")
@@ -909,6 +936,7 @@ func ZZ_C27_EndToEnd() {
 		return
 	}
 	rt.Assert(conn == nil, "no-stream-on-failure")
+	rt.Assert(rt.And(nLocalDials == nLocalStored, nNodeDials == nRemoteStored), "every-published-route-is-tried-before-giving-up")
 	switch {
 	case nStored == 0:
 		// nothing published (or nothing readable): not-found, or lookup-failed when every lookup broke
